@@ -566,22 +566,20 @@ func checkC04(c *Ctx, r *Report) {
 				roots = append(roots, m)
 			}
 		}
+		roots = append(roots, c.fnMust("", "*Field.ExtractFrom")) // the typed access path of the builder
 		t := runC13(c, roots, payloadFields(c, "packet"))
 		r.instance("R4.5", len(roots))
 		seen := map[string]bool{}
 		for _, f := range t.findings {
-			if f.rule != "R13.1" {
-				continue
-			}
 			k := f.sig + fnID(f.fn)
 			if seen[k] {
 				continue
 			}
 			seen[k] = true
-			r.fail("R4.5", fnID(f.fn), f.what+" (a later accessor would not see the wire bytes)", c.pos(f.pos), "", f.sig)
+			r.fail("R4.5", fnID(f.fn), f.what+" (a later access would not be determined by the wire bytes and the selected order alone)", c.pos(f.pos), "", f.sig)
 		}
 		if len(seen) == 0 {
-			r.ok("R4.5", "packet.Registers", fmt.Sprintf("none of the %d accessors (nor anything they call) writes through payload-derived memory", len(roots)), "-", true)
+			r.ok("R4.5", "packet.Registers", fmt.Sprintf("none of the %d access paths (nor anything they call) writes through payload-derived memory or changes decoder state", len(roots)), "-", true)
 		}
 	}
 	r.assumption("Registers values are only created by NewRegisters (its fields are unexported; checked: no other function of the package stores to startAddress/endAddress/data)")
